@@ -211,6 +211,18 @@ Module Doc.
     | _ => false
     end.
 
+  (* ++ and -- : postfix operators at the assignment level (they bind weaker than every binary
+     operator except the assignment operators, inside whose right operand they apply) *)
+  Definition lowpost_names : list string := ["++"; "--"].
+  Definition is_lowpost (t : tok) : bool :=
+    match t with TSym n false => existsb (String.eqb n) lowpost_names | _ => false end.
+  Definition assign_level : Z := 1.
+  (* no assignment operator among the top-level operators of an expression *)
+  Definition no_assign (a : alt tok) : bool :=
+    forallb (fun p : tok * unit_ tok => (assign_level <? prec (fst p))%Z) (snd a).
+  Definition if_tok : tok := TSym "if" false.
+  Definition else_tok : tok := TSym "else" false.
+
   Definition bin_head (t : tok) : string :=
     match t with
     | TComma => "comma"
